@@ -301,6 +301,11 @@ impl<F: Float, L: Label + std::fmt::Debug> TreeNode<F, L> {
 
                 // Take the midpoint from this value and the next one as split_value
                 split_value = (split_value + sorted_index.sorted_values[i + 1].1) / F::cast(2.0);
+                // The rounded midpoint of two adjacent floats can coincide with the larger one, keep
+                // the threshold below the next value so that `<=` separates the two
+                if split_value >= sorted_index.sorted_values[i + 1].1 {
+                    split_value = sorted_index.sorted_values[i].1;
+                }
 
                 // override best indices when score improved
                 best = match best.take() {
